@@ -11,6 +11,7 @@ matrix is written down from the published definition:
     w = 1                              non-stationary families (GN, ssGN, general predicates)
       = pi_j                           "tuple"  (F81/HKY85/TN93/GTR, GY94/Y98, empirical protein: S_ij pi_j)
       = pi^nuc(new nucleotide)         "monomer"      (MG94)
+      = pi^nuc_p(new nucleotide)       "monomers"     (position-specific nucleotide probabilities, p the changed position)
       = pi_j / sum_{k ~ j} pi_k        "conditional"  (CNF; k ~ j: k equals j outside the changed position)
     Q = q with q_ii = -sum_j q_ij, divided by -sum_i pi_i q_ii (one expected substitution per unit length, the
         expectation taken over the root/word distribution pi)
@@ -167,13 +168,18 @@ def scope_edges_outgroup(tree, a, b, outgroup, clade=True, stem=False):
 
 # ----------------------------------------------------------------------------------------------- states
 def _split(family):
-    """'codon' | 'codon:2' -> (base family, genetic code table)"""
+    """'codon' | 'codon:2' -> (base family, genetic code table);  'dinuc:AA,AC,..' -> dinucleotide model over the
+    listed sub-alphabet (the `motifs=` option)"""
     if family.startswith("codon"):
         return "codon", CODES[int(family.split(":")[1]) if ":" in family else 1]
+    if family.startswith("dinuc"):
+        return "dinuc", None
     return family, None
 
 
 def states_of(family):
+    if family.startswith("dinuc:"):
+        return family.split(":")[1].split(",")
     family, code = _split(family)
     if family == "codon":
         return sorted(c for c, a in code.items() if a != "*")
@@ -269,24 +275,45 @@ def rate_class(name):
     raise ValueError(f"cannot read rate parameter name {name!r}")
 
 
-def word_probs(family, weighting, pi):
-    """pi: dict over states ('tuple', 'conditional', None) or over nucleotides ('monomer') -> vector over states"""
+def word_probs(family, pi_kind, pi):
+    """the distribution over the model states.  pi_kind 'state': pi is a dict over the states;
+    'monomer': pi is a dict over nucleotides, a word has the product of its letters' probabilities;
+    'monomers': pi is a list (one dict over nucleotides per word position), product over positions.
+    Products are renormalised over the states of the model (sense codons, `motifs=` subset)."""
     states = states_of(family)
-    if weighting == "monomer":
+    if pi_kind == "monomer":
         v = numpy.array([math.prod(pi[ch] for ch in s) for s in states])
+        return v / v.sum()
+    if pi_kind == "monomers":
+        v = numpy.array([math.prod(pi[k][ch] for k, ch in enumerate(s)) for s in states])
         return v / v.sum()
     v = numpy.array([pi[s] for s in states], float)
     return v
 
 
-def rate_matrix(family, weighting, pi, params, exchange=None):
+def position_marginals(family, pi):
+    """per-position nucleotide probabilities of a distribution over the model states"""
+    states = states_of(family)
+    out = []
+    for k in range(word_length(family)):
+        d = {n: sum(pi[s] for s in states if s[k] == n) for n in NUCS}
+        tot = sum(d.values())
+        out.append({n: v / tot for n, v in d.items()})
+    return out
+
+
+def rate_matrix(family, weighting, pi, params, exchange=None, pi_kind=None):
     """calibrated Q over states_of(family) (rows: from, columns: to) and the word/root distribution.
-    weighting: None (non-stationary) | 'tuple' | 'monomer' | 'conditional';
+    weighting: None (non-stationary) | 'tuple' | 'monomer' | 'monomers' (position-specific monomer
+    probabilities: w = pi[changed position][new nucleotide]) | 'conditional';
+    pi_kind: how pi describes the word distribution (see word_probs); follows from the weighting unless given;
     params: {parameter name: value};  exchange: optional {(aa, aa): S} symmetric table (empirical protein)"""
     states = states_of(family)
     code = _split(family)[1]
     n = len(states)
-    wp = word_probs(family, weighting, pi)
+    if pi_kind is None:
+        pi_kind = weighting if weighting in ("monomer", "monomers") else "state"
+    wp = word_probs(family, pi_kind, pi)
     idx = {s: i for i, s in enumerate(states)}
     classes = [(rate_class(nm), float(v)) for nm, v in params.items()]
     q = numpy.zeros((n, n))
@@ -313,6 +340,8 @@ def rate_matrix(family, weighting, pi, params, exchange=None):
                 w = wp[j]
             elif weighting == "monomer":
                 w = pi[y[p]]
+            elif weighting == "monomers":
+                w = pi[p][y[p]]
             elif weighting == "conditional":
                 tot = sum(wp[idx[k]] for k in states if k[:p] == y[:p] and k[p + 1:] == y[p + 1:])
                 w = wp[j] / tot
